@@ -191,7 +191,7 @@ def explore(ctx):
     narrow_threshold_stream(ctx)
     translation_edge_stream(ctx)
     # the relabellings the theorems speak about are the ones numpy performs
-    rc.run_relabel_tie(ctx, 'c16_relab', ['flip', 'pad', 'swap', 'unit'], 240 if ctx.quick else 2400)
+    rc.run_relabel_tie(ctx, 'c16_relab', ['flip', 'pad', 'swap', 'unit', 'perm', 'perm'], 240 if ctx.quick else 2400)
 
 
 def narrow_threshold_stream(ctx):
